@@ -52,6 +52,7 @@ package route
 //@   ghostupdate otlpN(router), otlpKey(router) :: otlpN(router) == old(otlpN(router)) + 1 && otlpKey(router) == apiKey
 //@   ensures[lookup-failure-is-an-error] lookupErr != nil ==> result != nil
 //@   ensures[lookup-failure-processes-nothing] lookupErr != nil ==> procN(router) == old(procN(router))
+//@   ensures[an-error-answer-means-nothing-was-processed] result != nil ==> procN(router) == old(procN(router))
 //@   loop 1 invariant router != nil && toInt(refOf(router.UpstreamTransmission)) != toInt(refOf(router.PeerTransmission))
 //@   loop 2 invariant router != nil && toInt(refOf(router.UpstreamTransmission)) != toInt(refOf(router.PeerTransmission))
 //@ contract route.(*Router).processOTLPRequest props C23 havoc
@@ -62,6 +63,7 @@ package route
 //@   ghostupdate otlpN(router), otlpKey(router) :: otlpN(router) == old(otlpN(router)) + 1 && otlpKey(router) == apiKey
 //@   ensures[lookup-failure-is-an-error] lookupErr != nil ==> result != nil
 //@   ensures[lookup-failure-processes-nothing] lookupErr != nil ==> procN(router) == old(procN(router))
+//@   ensures[an-error-answer-means-nothing-was-processed] result != nil ==> procN(router) == old(procN(router))
 //@   loop 1 invariant router != nil && toInt(refOf(router.UpstreamTransmission)) != toInt(refOf(router.PeerTransmission))
 //@   loop 2 invariant router != nil && toInt(refOf(router.UpstreamTransmission)) != toInt(refOf(router.PeerTransmission))
 
